@@ -304,7 +304,7 @@ static void scenario(int id, Run& r) {
     ok = ok && step(r, "recompile", [&] {
                       if (!o.m) {   // a failed mj_recompile has deleted model and data: start over like a client would
                         o.m = mj_compile(o.spec, nullptr);
-                        if (!o.m) return false;
+                        if (!o.m) { const char* e = mjs_getError(o.spec); r.lastmsg = e ? e : ""; return false; }
                         o.m->narena = 100000;
                         o.d = mj_makeData(o.m);
                         return o.d != nullptr;
